@@ -119,9 +119,22 @@ def check_case(case):
                 v0, v1 = a0[an], a1[an]
                 if tuple(v1.shape) != (v0.shape[1], v0.shape[0]):
                     raise Violation({"util": u, "kind": "signature"}, f"transpose({an}): shape {v0.shape} became {v1.shape}")
-                for i in range(v0.shape[0]):
-                    for j in range(v0.shape[1]):
-                        v1.buf.data[v1.flat((j, i))] = v0.buf.data[v0.flat((i, j))]
+                same_memory = bool(v0.is_win and v1.is_win)
+                if same_memory:
+                    # a window argument: hand the transposed procedure the SAME memory viewed as the
+                    # transpose (shape and strides swapped) - stride(a, d) then has to follow too
+                    from ..interp import Buffer
+
+                    nb = Buffer(len(v0.buf.data), an, v0.buf.typ, is_arg=True)
+                    nb.data[:] = list(v0.buf.data)
+                    v1 = View(nb, v0.off, (v0.strides[1], v0.strides[0]), (v0.shape[1], v0.shape[0]), True)
+                    a1[an] = v1
+                    b1[an] = nb
+                    desc["view"] = "same-memory-transposed-view"
+                else:
+                    for i in range(v0.shape[0]):
+                        for j in range(v0.shape[1]):
+                            v1.buf.data[v1.flat((j, i))] = v0.buf.data[v0.flat((i, j))]
                 cfg = {}
                 for kk, x in cfg0.items():
                     c, f = kk.split(".")
@@ -137,7 +150,11 @@ def check_case(case):
                 except InterpLimit:
                     continue
                 for n in b0:
-                    if n == an:
+                    if n == an and same_memory:
+                        for f, (x, y) in enumerate(zip(v0.buf.data, v1.buf.data)):
+                            if x is not POISON and x != y:
+                                raise Violation({"util": u, "kind": "buffer-mismatch"}, f"transpose({an}) on input {json.dumps(fv)} (same memory, transposed view): backing[{f}] = {x} after the original, {y} after the transposed procedure\n--- original:\n{safe_str(p)}\n--- transposed:\n{safe_str(q)}")
+                    elif n == an:
                         for i in range(v0.shape[0]):
                             for j in range(v0.shape[1]):
                                 x, y = v0.buf.data[v0.flat((i, j))], v1.buf.data[v1.flat((j, i))]
@@ -257,15 +274,18 @@ def info(case, desc, nontrivial, p, q):
 
 
 def case_strategy():
-    return st.fixed_dictionaries(
-        {
-            "prog": programs(max_stmts=10, par=False),
-            "util": st.tuples(st.sampled_from(UTILS), st.integers(0, 30), st.integers(0, 13), st.integers(0, 13)).map(list),
-            "val": st.fixed_dictionaries(
-                {"fill": st.integers(0, 5), "layout": st.integers(0, 5), "cfg": st.lists(st.integers(0, 20), min_size=5, max_size=5), "pick": st.integers(0, 50)}
-            ),
-        }
+    val = st.fixed_dictionaries({"fill": st.integers(0, 5), "layout": st.integers(0, 5), "cfg": st.lists(st.integers(0, 20), min_size=5, max_size=5), "pick": st.integers(0, 50)})
+    ks = (st.integers(0, 30), st.integers(0, 13), st.integers(0, 13))
+    general = st.fixed_dictionaries({"prog": programs(max_stmts=10, par=False), "util": st.tuples(st.sampled_from(UTILS), *ks).map(list), "val": val})
+    # directed sub-domains: (a) transpose of a 2-d WINDOW argument in programs that dispatch on
+    # stride(a, d); (b) partial_eval of an index argument that inner loops shadow by name
+    transp = st.fixed_dictionaries(
+        {"prog": programs(max_stmts=8, par=False, force_window2d=True, stride_cond_pct=45, calls=False), "util": st.tuples(st.just("transpose"), st.just(0), *ks[1:]).map(list), "val": val}
     )
+    peval = st.fixed_dictionaries(
+        {"prog": programs(max_stmts=10, par=False, index_arg_pct=100, shadow_pct=85), "util": st.tuples(st.just("partial_eval"), *ks).map(list), "val": val}
+    )
+    return st.one_of(general, general, general, transp, peval)
 
 
 def run(ctx):
